@@ -1,9 +1,79 @@
 use serde_json::{json, Value};
 
 pub fn consts() -> Value {
-    json!({})
+    use sc62015_core::memory as m;
+    use sc62015_core::pce500 as p;
+    json!({
+        "INTERNAL_MEMORY_START": m::INTERNAL_MEMORY_START,
+        "ADDRESS_MASK": m::ADDRESS_MASK,
+        "INTERNAL_ADDR_MASK": m::INTERNAL_ADDR_MASK,
+        "EXTERNAL_SPACE": m::EXTERNAL_SPACE,
+        "INTERNAL_SPACE": m::INTERNAL_SPACE,
+        "INTERNAL_RAM_START": m::INTERNAL_RAM_START,
+        "INTERNAL_RAM_SIZE": m::INTERNAL_RAM_SIZE,
+        "IMEM": {
+            "KOL": m::IMEM_KOL_OFFSET, "KOH": m::IMEM_KOH_OFFSET, "KIL": m::IMEM_KIL_OFFSET,
+            "BP": m::IMEM_BP_OFFSET, "PX": m::IMEM_PX_OFFSET, "PY": m::IMEM_PY_OFFSET,
+            "UCR": m::IMEM_UCR_OFFSET, "USR": m::IMEM_USR_OFFSET, "RXD": m::IMEM_RXD_OFFSET,
+            "TXD": m::IMEM_TXD_OFFSET, "IMR": m::IMEM_IMR_OFFSET, "ISR": m::IMEM_ISR_OFFSET,
+            "SCR": m::IMEM_SCR_OFFSET, "LCC": m::IMEM_LCC_OFFSET, "SSR": m::IMEM_SSR_OFFSET,
+        },
+        "SYSTEM_IMAGE_LEN": p::SYSTEM_IMAGE_LEN,
+        "ROM_WINDOW_START": p::ROM_WINDOW_START,
+        "ROM_WINDOW_LEN": p::ROM_WINDOW_LEN,
+        "ROM_RESET_VECTOR_ADDR": p::ROM_RESET_VECTOR_ADDR,
+        "DEFAULT_CPU_HZ": p::DEFAULT_CPU_HZ,
+        "DEFAULT_MTI_PERIOD": p::DEFAULT_MTI_PERIOD,
+        "DEFAULT_STI_PERIOD": p::DEFAULT_STI_PERIOD,
+        "SNAPSHOT_MAGIC": sc62015_core::snapshot::SNAPSHOT_MAGIC,
+        "SNAPSHOT_VERSION": sc62015_core::snapshot::SNAPSHOT_VERSION,
+        "LCD_DISPLAY_ROWS": sc62015_core::lcd::LCD_DISPLAY_ROWS,
+        "LCD_DISPLAY_COLS": sc62015_core::lcd::LCD_DISPLAY_COLS,
+    })
 }
 pub fn cmd_mem(_req: &Value) -> Value { json!({"err": "not implemented"}) }
-pub fn cmd_timer(_req: &Value) -> Value { json!({"err": "not implemented"}) }
+/// timer: script over one TimerContext + MemoryImage.
+/// ops: {"new":[enabled,mti,sti]} {"tick":cycle} {"reset":cycle} {"snap":cycle} {"set_isr":v}
+pub fn cmd_timer(req: &Value) -> Value {
+    use sc62015_core::memory::MemoryImage;
+    use sc62015_core::timer::TimerContext;
+    let mut mem = MemoryImage::new();
+    let mut t = TimerContext::new(true, 0, 0);
+    let mut out: Vec<Value> = Vec::new();
+    if let Some(Value::Array(ops)) = req.get("script") {
+        for op in ops {
+            if let Some(a) = op.get("new").and_then(|v| v.as_array()) {
+                t = TimerContext::new(
+                    a[0].as_bool().unwrap_or(true),
+                    a[1].as_i64().unwrap_or(0) as i32,
+                    a[2].as_i64().unwrap_or(0) as i32,
+                );
+                out.push(json!({"next_mti": t.next_mti, "next_sti": t.next_sti}));
+            } else if let Some(c) = op.get("tick").and_then(|v| v.as_u64()) {
+                let (m, s) = t.tick_timers(&mut mem, c, None);
+                let isr = mem.read_internal_byte(0xFC).unwrap_or(0);
+                out.push(json!({"mti": m, "sti": s, "next_mti": t.next_mti, "next_sti": t.next_sti, "isr": isr,
+                                "pending": t.irq_pending}));
+            } else if let Some(c) = op.get("finalize").and_then(|v| v.as_u64()) {
+                t.finalize_instruction(c);
+                out.push(json!({"next_mti": t.next_mti, "next_sti": t.next_sti}));
+            } else if let Some(c) = op.get("reset").and_then(|v| v.as_u64()) {
+                t.reset(c);
+                out.push(json!({"next_mti": t.next_mti, "next_sti": t.next_sti}));
+            } else if let Some(c) = op.get("snap").and_then(|v| v.as_u64()) {
+                let (ti, ii) = t.snapshot_info();
+                let mut fresh = TimerContext::new(false, 0, 0);
+                fresh.apply_snapshot_info(&ti, &ii, c);
+                t = fresh;
+                out.push(json!({"next_mti": t.next_mti, "next_sti": t.next_sti, "enabled": t.enabled,
+                                "mti_period": t.mti_period, "sti_period": t.sti_period}));
+            } else if let Some(v) = op.get("set_isr").and_then(|v| v.as_u64()) {
+                mem.write_internal_byte(0xFC, v as u8);
+                out.push(json!({}));
+            }
+        }
+    }
+    json!({"out": out})
+}
 pub fn cmd_kbd(_req: &Value) -> Value { json!({"err": "not implemented"}) }
 pub fn cmd_lcd(_req: &Value) -> Value { json!({"err": "not implemented"}) }
